@@ -5,6 +5,7 @@ import csv
 import hashlib
 import io
 import json
+import os
 from dataclasses import replace
 
 from hypothesis import strategies as st
@@ -18,7 +19,8 @@ RULE = (
     "Real subprocess runs of the plan entry point ('plan report ...', scriptplan.cli.plan:main of the tree under test) "
     "in a private working directory and TMPDIR. Inputs: generated valid projects without reports and with 1-2 own "
     "reports (json and/or csv, other columns and time formats, names sorting before and after 'plan_auto_'), projects "
-    "with unschedulable tasks; channels file / '-' / no argument; --csv or not; LF and CRLF. Bad input classes: missing "
+    "with unschedulable tasks; channels file / '-' / no argument; --csv or not; LF and CRLF; input files named *.tjp and "
+    "otherwise (no suffix, other suffix, upper case, blank in the name, sub-directory, leading dash); --verbose / --quiet. Bad input classes: missing "
     "path, directory, empty file, whitespace-only stdin, syntax error, unresolved resource, truncated text. Oracle, "
     "success: exit 0; stdout is exactly one JSON document with keys data, columns == [id,start,end] and report_id == "
     "sha256(input bytes) (or CSV with header Id,Start,End); rows = all tasks in declaration order with the dates of "
@@ -51,7 +53,8 @@ def cases(draw):
                              timeformat=draw(st.sampled_from([None, "%d.%m.%Y", "%Y-%m-%d"]))))
     return {"kind": "ok", "spec": spec, "own": own, "csv": csvf, "channel": draw(st.sampled_from(["file", "dash", "noarg"])),
             "glob": draw(st.sampled_from([[], [], ["--verbose"], ["--quiet"]])),
-            "crlf": draw(st.booleans()), "tf": draw(st.sampled_from([None, "%d.%m.%y"]))}
+            "crlf": draw(st.booleans()), "tf": draw(st.sampled_from([None, "%d.%m.%y"])),
+            "fname": draw(st.sampled_from(["p.tjp", "p.tjp", "p.tjp", "Planfile", "demo.tjp.v2", "p.TJP", "my plan.tjp", "p.txt", "sub/p.tjp", "-p.tjp"]))}
 
 
 def parse_stdout(out: bytes, csvf: bool):
@@ -110,7 +113,6 @@ def eval_case(case):
             if fk == "missing":
                 args, want = ["report"] + flags + ["nosuch.tjp"], 1
             elif fk == "directory":
-                import os
 
                 os.makedirs(sb.cwd + "/adir.tjp")
                 args, want = ["report"] + flags + ["adir.tjp"], 1
@@ -158,11 +160,15 @@ def eval_case(case):
         if want_rows is None:
             r.classes.append("api_rejects")
             return r  # the API itself rejects the text: C11's business
-        sb.write("p.tjp", data)
+        fname = case.get("fname", "p.tjp")
+        farg = ["--", fname] if fname.startswith("-") else [fname]
+        if "/" in fname:
+            os.makedirs(os.path.join(sb.cwd, os.path.dirname(fname)), exist_ok=True)
+        sb.write(fname, data)
         ch = case["channel"]
         gl = case.get("glob", [])
         if ch == "file":
-            run = sb.run(gl + ["report"] + flags + ["p.tjp"])
+            run = sb.run(gl + ["report"] + flags + farg)
         elif ch == "dash":
             run = sb.run(gl + ["report"] + flags + ["-"], stdin=data)
         else:
@@ -185,14 +191,14 @@ def eval_case(case):
             if b"Traceback" in run.out:
                 vs.append(Violation("traceback_on_stdout", where, run.out[:200].decode(errors="replace")))
             # the other channel must give the same data
-            other = sb.run(["report"] + flags + (["-"] if ch == "file" else ["p.tjp"]), stdin=data if ch == "file" else None)
+            other = sb.run(["report"] + flags + (["-"] if ch == "file" else farg), stdin=data if ch == "file" else None)
             if other.rc != run.rc:
                 vs.append(Violation("channel_exit_differs", where, f"exit {run.rc} vs {other.rc} through the other channel"))
             elif other.out != run.out:
                 vs.append(Violation("channel_output_differs", where, "stdout differs between file and stdin input"))
         own_fmt = any(("csv" if csvf else "json") in (o.formats or ["json"]) for o in case["own"])
         r.nontrivial = own_fmt or ch != "file"
-        r.classes += [ch, "csv" if csvf else "json"] + [g.strip("-") for g in case.get("glob", [])] + (["own_report_same_format"] if own_fmt else []) + (["crlf"] if case["crlf"] else [])
+        r.classes += [ch, "csv" if csvf else "json"] + ([] if fname == "p.tjp" else ["other_file_name"]) + [g.strip("-") for g in case.get("glob", [])] + (["own_report_same_format"] if own_fmt else []) + (["crlf"] if case["crlf"] else [])
         if any(not t.scheduled for t in obs.scen[0].tasks):
             r.classes.append("unschedulable_tasks")
         if r.nontrivial:
